@@ -183,6 +183,35 @@ fn tree_models(ctx: &mut Ctx, rng: &mut Sm64, ninst: usize) {
 }
 
 // ---------------------------------------------------------------- naive Bayes
+/// per-class fitted statistics (private HashMap<label, info>) from the bincode image:
+/// (label, prior, first array, second array) with info = {class_count, prior, array, array}
+fn nb_classes(bytes: &[u8]) -> Option<Vec<(usize, f64, Vec<f64>, Vec<f64>)>> {
+    let mut r = Rd { b: bytes, pos: 0 };
+    let n = r.u64()? as usize;
+    if n > 1000 { return None; }
+    let mut v = Vec::new();
+    for _ in 0..n {
+        let label = r.u64()? as usize;
+        let _count = r.u64()?;
+        let prior = r.f64()?;
+        let a = r.arr1()?;
+        let b = r.arr1()?;
+        v.push((label, prior, a, b));
+    }
+    if r.done() { Some(v) } else { None }
+}
+/// the predicted label must attain the maximal joint log-likelihood (recomputed naively) up to rounding
+fn nb_argmax_check(pool: &Array2<f64>, pred: &Array1<usize>, classes: &[(usize, f64, Vec<f64>, Vec<f64>)], jll: &dyn Fn(&[f64], &(usize, f64, Vec<f64>, Vec<f64>)) -> f64) -> Option<usize> {
+    (0..pool.nrows()).find(|&i| {
+        let row = pool.row(i).to_vec();
+        let vals: Vec<(usize, f64)> = classes.iter().map(|c| (c.0, jll(&row, c))).collect();
+        let mx = vals.iter().map(|v| v.1).fold(f64::NEG_INFINITY, f64::max);
+        match vals.iter().find(|v| v.0 == pred[i]) {
+            None => true,
+            Some(v) => !(v.1 >= mx - 1e-9 * (1.0 + mx.abs())),
+        }
+    })
+}
 fn bayes_models(ctx: &mut Ctx, rng: &mut Sm64, ninst: usize) {
     for inst in 0..ninst {
         // fewer than 8 features: the row sums then run in the same order in every layout
@@ -195,6 +224,15 @@ fn bayes_models(ctx: &mut Ctx, rng: &mut Sm64, ninst: usize) {
         match guarded(AssertUnwindSafe(|| GaussianNb::params().fit(&ds))) {
             Ok(Ok(m)) => {
                 let pool: Array2<f64> = arr(&pool_rows(rng, &x, &[]));
+                let classes = match bincode::serialize(&m).ok().and_then(|b| nb_classes(&b)) { Some(c) => c, None => panic!("cannot read the class statistics of GaussianNb from its bincode image") };
+                let o: Array1<usize> = m.predict(&pool);
+                let bad = nb_argmax_check(&pool, &o, &classes, &|row, c| {
+                    let (theta, sigma) = (&c.2, &c.3);
+                    let a: f64 = sigma.iter().map(|s| (2.0 * std::f64::consts::PI * s).ln()).sum();
+                    let b: f64 = row.iter().zip(theta.iter().zip(sigma)).map(|(x, (t, s))| (x - t) * (x - t) / s).sum();
+                    -0.5 * a - 0.5 * b + c.1.ln()
+                });
+                ext_case(ctx, "gaussian_nb", bad.is_none(), "predict(x) attains the maximal joint log-likelihood of the fitted class statistics", &format!("first differing row {:?}", bad.map(|i| pool.row(i).to_vec())));
                 let pred = mk_pred!(m, Array1<usize>, f64, view);
                 let xl = Xl { exact: false, scale: 1.0, near: None, expo: false };
                 metamorph(ctx, rng, "gaussian_nb", &format!("p={} classes={}", p, k), &pred, &pool, &xl);
@@ -207,6 +245,10 @@ fn bayes_models(ctx: &mut Ctx, rng: &mut Sm64, ninst: usize) {
             Ok(Ok(m)) => {
                 let q: Vec<Vec<f64>> = (0..20).map(|i| if i < 8 { xc[rng.below(n as u64) as usize].clone() } else { (0..p).map(|_| rng.below(6) as f64).collect() }).collect();
                 let pool: Array2<f64> = arr(&q);
+                let classes = match bincode::serialize(&m).ok().and_then(|b| nb_classes(&b)) { Some(c) => c, None => panic!("cannot read the class statistics of MultinomialNb from its bincode image") };
+                let o: Array1<usize> = m.predict(&pool);
+                let bad = nb_argmax_check(&pool, &o, &classes, &|row, c| row.iter().zip(&c.3).map(|(x, l)| x * l).sum::<f64>() + c.1.ln());
+                ext_case(ctx, "multinomial_nb", bad.is_none(), "predict(x) attains the maximal joint log-likelihood x.feature_log_prob + ln prior", &format!("first differing row {:?}", bad.map(|i| pool.row(i).to_vec())));
                 let pred = mk_pred!(m, Array1<usize>, f64, view);
                 let xl = Xl { exact: false, scale: 1.0, near: None, expo: false };
                 metamorph(ctx, rng, "multinomial_nb", &format!("p={} classes={}", p, k), &pred, &pool, &xl);
@@ -263,7 +305,7 @@ fn reduction_models(ctx: &mut Ctx, rng: &mut Sm64, ninst: usize) {
             Ok(Ok(m)) => {
                 let o: Array2<f64> = m.predict(&pool);
                 let w = m.components().t().to_owned();
-                aff_case(ctx, "pca", 0, &m.mean().to_vec(), &w, &vec![0.0; w.ncols()], &pool, &rows_of(&o.view()), &[]);
+                aff_case(ctx, "pca", 0, &m.mean().to_vec(), &[], &w, &vec![0.0; w.ncols()], &pool, &rows_of(&o.view()), &[]);
                 let sc = (1.0 + maxabs(&m.mean().to_vec())) * w.iter().fold(0.0f64, |a, v| a.max(v.abs()));
                 let pred = mk_pred!(m, Array2<f64>, f64, view);
                 metamorph(ctx, rng, "pca", &format!("p={} k={}", p, k), &pred, &pool, &Xl::real(sc));
@@ -276,6 +318,16 @@ fn reduction_models(ctx: &mut Ctx, rng: &mut Sm64, ninst: usize) {
         let kc = 1 + inst % 2.min(p);
         match guarded(AssertUnwindSafe(|| PlsRegression::params(kc).fit(&ds2))) {
             Ok(Ok(m)) => {
+                // x_mean, x_std, y_mean are private: read them from the bincode image (field order of Pls)
+                let img = bincode::serialize(&m).expect("bincode image of PlsRegression");
+                let mut rd = Rd { b: &img, pos: 0 };
+                let parsed = (|| { let xm = rd.arr1()?; let xs = rd.arr1()?; let ym = rd.arr1()?; let _ys = rd.arr1()?;
+                    for _ in 0..6 { rd.arr2()?; }
+                    let coef = rd.arr2()?; if rd.done() { Some((xm, xs, ym, coef)) } else { None } })();
+                let (xm, xs, ym, coef) = match parsed { Some(t) => t, None => panic!("cannot read the fitted parameters of PlsRegression from its bincode image") };
+                assert!(coef == *m.coefficients(), "bincode image of PlsRegression: coefficients differ from the accessor");
+                let o: Array2<f64> = m.predict(&pool);
+                aff_case(ctx, "pls", 0, &xm, &xs, &coef, &ym, &pool, &rows_of(&o.view()), &[]);
                 let sc = m.coefficients().iter().fold(0.0f64, |a, v| a.max(v.abs())) * 8.0 + 8.0;
                 let pred = mk_pred!(m, Array2<f64>, f64, view);
                 metamorph(ctx, rng, "pls", &format!("p={} components={} targets={}", p, kc, t), &pred, &pool, &Xl::real(sc));
